@@ -41,6 +41,14 @@ def leaderStep (_ : Unit) (toks : List String) : Unit × String :=
       else if n == 0 then ((), "panic")   -- outside the model: Go divides by zero
       else ((), leadersStr 2 (roundRobin v n))
     | _, _ => ((), "bad-op")
+  | ["rrgrow", k, n, v1, v2] =>
+    -- one RoundRobin object asked while the configuration has k replicas and again when it has n: a function of
+    -- the view and the CURRENT configuration (no state)
+    match k.toNat?, n.toNat?, v1.toNat?, v2.toNat? with
+    | some k, some n, some v1, some v2 =>
+      if k < 1 || n < k || n > 64 || v1 ≥ two64 || v2 ≥ two64 then ((), "bad-op")
+      else ((), s!"first={roundRobin v1 k} " ++ leadersStr 2 (roundRobin v2 n))
+    | _, _, _, _ => ((), "bad-op")
   | ["fixed", l, v] =>
     match l.toNat?, v.toNat? with
     | some l, some v => if l ≥ 2 ^ 32 || v ≥ two64 then ((), "bad-op") else ((), leadersStr 2 (fixed l v))
@@ -90,6 +98,18 @@ structure LeaderOr where
 def leaderOracleStep (s : LeaderOr) (toks : List String) : LeaderOr × String :=
   let (lhs, rhs) := splitArrow toks
   match lhs with
+  | ["rrgrow", k, n, _, v2] =>
+    match k.toNat?, n.toNat?, v2.toNat? with
+    | some k, some n, some v2 =>
+      if k < 1 || n < k || n > 64 then (s, "pass") else
+      match parseLeaders (rhs.drop 1) with
+      | none => (s, s!"fail rr-shape {rhs}")
+      | some l =>
+        if !allEq l then (s, s!"fail rr-disagree n={n} view={v2}: an instance first asked with {k} replicas configured answers differently: {rhs}") else
+        let a := l.headD 0
+        if a < 1 || a > n then (s, s!"fail rr-invalid n={n} view={v2}: leader {a}") else
+        if a != v2 % n + 1 then (s, s!"fail rr-turn n={n} view={v2}: leader {a}") else (s, "pass")
+    | _, _, _ => (s, "pass")
   | ["rr", n, v] =>
     match n.toNat?, v.toNat? with
     | some n, some v =>
